@@ -8,7 +8,6 @@ typedef struct {
 } hyg_state;
 #define HYG_REVPOS 24
 
-static const uint64_t HYG_VALUES[] = {0, 1, 63, 64, 200, 240, 241, 3000, 16446, 16447, 70000, 4210749, 4210750, (1ULL << 24) + 5, (1ULL << 32) + 9, (1ULL << 40) + 3, (1ULL << 56) - 1, 1ULL << 63, UINT64_MAX};
 typedef struct {
     int64_t v;
     int w;
@@ -41,6 +40,7 @@ static void hyg_setup_signedbits(hyg_state *s, uint64_t v, int w) { (void)v; (vo
 static void hyg_setup_signedbitsback(hyg_state *s, uint64_t v, int w) { (void)v; (void)w; hyg_base(s); }
 
 #ifdef HYG_SCALAR
+static void hyg_fill_tagged(hyg_state *s, uint64_t v) { varintTaggedPut64(s->b + 8, v); }
 static void hyg_fill_ext(hyg_state *s, uint64_t v) { varintExternalPutFixedWidth(s->b + 8, v, (varintWidth)extw(v)); }
 static void hyg_fill_extbe(hyg_state *s, uint64_t v) { varintExternalBigEndianPutFixedWidth(s->b + 8, v, (varintWidth)extw(v)); }
 #define HYG_FILL(F)                                                                                                \
